@@ -322,7 +322,24 @@ func (r *storeRun) searchFull(st *comet.PersistentHybridIndex, k int, withRef bo
 		rs, _ := r.mirror.NewSearch().WithVector([]float32{0, 0}).WithK(k).Execute()
 		ref = idsOf(rs)
 	}
-	r.emit("search.ret", E{"k": k, "resV": resV, "resT": resT, "resM": resM, "ok": ok, "ref": ref, "err": msg, "tm": tm && k >= 100, "hasT": r.ct, "hasM": r.cm})
+	r.emit("search.ret", E{"k": k, "resV": resV, "resT": resT, "resM": resM, "ok": ok, "ref": ref, "err": msg, "tm": tm && k >= 100, "hasT": r.ct, "hasM": r.cm, "cut": 0})
+}
+
+// searchThr: vector-only query with a distance threshold (documents 1..cut lie within it) and k
+func (r *storeRun) searchThr(st *comet.PersistentHybridIndex, k, cut int) {
+	if !r.cv {
+		return
+	}
+	thr := float32(cut*cut) + 0.5 // squared L2 from the origin: document i sits at distance i*i
+	rs, err := st.NewSearch().WithVector([]float32{0, 0}).WithK(k).WithThreshold(thr).Execute()
+	msg := ""
+	if err != nil {
+		msg = err.Error()
+	}
+	ref := []int{}
+	mr, _ := r.mirror.NewSearch().WithVector([]float32{0, 0}).WithK(k).WithThreshold(thr).Execute()
+	ref = idsOf(mr)
+	r.emit("search.ret", E{"k": k, "cut": cut, "resV": idsOf(rs), "resT": []int{}, "resM": []int{}, "ok": err == nil, "ref": ref, "err": msg, "tm": false, "hasT": r.ct, "hasM": r.cm})
 }
 
 func copyDir(src, dst string) error {
@@ -511,7 +528,11 @@ func (r *storeRun) history(steps int, density float64) error {
 		case x < 11:
 			r.searchOn(r.st, 100, false)
 		case x < 12:
-			r.searchOn(r.st, 1+r.rng.Intn(3), true)
+			if r.rng.Intn(2) == 0 {
+				r.searchOn(r.st, 1+r.rng.Intn(3), true)
+			} else {
+				r.searchThr(r.st, []int{100, 2, 5}[r.rng.Intn(3)], 1+r.rng.Intn(8))
+			}
 		case x < 13:
 			r.st.VerifEvictAll()
 			r.emit("evict", E{})
